@@ -32,7 +32,21 @@ Example C05_setup_kernel_is_translation_nonvacuous :
 Proof.
   split; [reflexivity|]. split; [reflexivity|]. split.
   - repeat constructor; reflexivity.
-  - split; [repeat constructor; vm_compute; lia | vm_compute; lia].
+  - split; [vm_compute; repeat constructor; vm_compute; lia | vm_compute; lia].
+Qed.
+
+(** a table that STARTS WITH the null section of every ELF section table (flags 0, address 0, size 0): the hypotheses hold
+    with fuel 8 - the null entry is never visited and needs none (its page count `size - 1` would be 2^52) *)
+Definition null_secs : list section := (0, 0, 0) :: secs.
+Example C05_null_section_table_nonvacuous :
+  OFF < two64 /\ last (boot 0 full) < two64 /\ Forall K.sec_ok null_secs /\ K.fuel_ok 8 null_secs (boot 0 full)
+  /\ K.sec_n 0 0 = 2 ^ 52
+  /\ (match go_vmm_setupPDTForKernel 8 (mk_go_vmm_world [] (boot 0 full)) OFF K.o_kactivate K.o_kinit K.o_kmap M.o_alloc K.o_translate (K.nonempty null_secs)
+      with GOk (w, e) => Some (e, length (f_world_trace w)) | _ => None end) = Some (None, 7%nat).
+Proof.
+  split; [reflexivity|]. split; [reflexivity|]. split; [repeat constructor; reflexivity|].
+  split; [split; [vm_compute; repeat constructor; vm_compute; lia | vm_compute; lia]|].
+  split; vm_compute; reflexivity.
 Qed.
 
 Example C05_setup_kernel_is_translation_state_nonvacuous :
@@ -78,7 +92,7 @@ Example setup_reserved_unmapped_run :
   /\ K.fuel_ok 8 secs s.
 Proof.
   split; [vm_compute; reflexivity|]. split; [vm_compute; reflexivity|].
-  split; [repeat constructor; vm_compute; lia | vm_compute; lia].
+  split; [vm_compute; repeat constructor; vm_compute; lia | vm_compute; lia].
 Qed.
 
 (** too little fuel is reported as GFuel, not as a panic *)
